@@ -39,6 +39,11 @@ _DIAG_MODULES = {"logging", "warnings", "logger", "log"}
 _DIAG_FUNCS = {"print"}
 
 
+# names the other modules of the package refer to (set by the index while
+# it loads a module): what they may call is not a dead helper
+EXTERNAL_REFS = set()
+
+
 def _pure_expr(e):
     for n in ast.walk(e):
         if isinstance(n, (ast.Await, ast.Yield, ast.YieldFrom, ast.NamedExpr,
